@@ -274,6 +274,7 @@ class StmtHook:
         self.count = 0
         self.callback = None
         self.enabled = True
+        COMMIT_FAULTS.reset()
 
 
 STMT = StmtHook()
@@ -291,8 +292,46 @@ def _make_trace(path):
     return _trace
 
 
+class CommitFaults:
+    """Fault injection at the connection seam: the next n commit() calls on the armed path fail with a
+    retryable error, as they do when another process holds the database lock."""
+
+    def __init__(self):
+        self.reset()
+
+    def reset(self):
+        self.path = None
+        self.pending = 0
+        self.fired = 0
+
+    def arm(self, path, n=1):
+        self.path = path
+        self.pending = n
+
+
+COMMIT_FAULTS = CommitFaults()
+
+
+class FaultConn(sqlite3.Connection):
+    """sqlite3.Connection whose commit() can be made to fail by the simulator."""
+
+    _sim_path = None
+
+    def commit(self):
+        f = COMMIT_FAULTS
+        if f.pending > 0 and f.path is not None and f.path == self._sim_path:
+            f.pending -= 1
+            f.fired += 1
+            raise sqlite3.OperationalError("database is locked")
+        return super().commit()
+
+
 def _sim_connect(database, *a, **k):
+    if "factory" not in k and len(a) < 5:
+        k["factory"] = FaultConn
     conn = _real_connect(database, *a, **k)
+    if isinstance(conn, FaultConn) and isinstance(database, (str, bytes, os.PathLike)):
+        conn._sim_path = os.fsdecode(database)
     try:
         if isinstance(database, (str, bytes, os.PathLike)):
             p = os.fsdecode(database)
